@@ -300,6 +300,7 @@ static void run_roundtrip(int which /*1 builtin,2 isal,3 both*/)
     if (which & 1) {
         add_cfgs(cfgs, &nc, 1200, EC_BACKEND_LIBERASURECODE_RS_VAND, MO.thorough);
         nc += cfgs_xor(cfgs + nc, 1200 - nc);
+        nc += cfgs_shss(cfgs + nc, 1200 - nc);      /* backend with per-fragment metadata and forced decode (stand-in library) */
     }
     if (which & 2) {
         add_cfgs(cfgs, &nc, 1200, EC_BACKEND_ISA_L_RS_VAND, MO.thorough && which == 2);
@@ -357,6 +358,7 @@ static void run_nosilent(int which)
     if (which & 1) {
         add_cfgs(cfgs, &nc, 1200, EC_BACKEND_LIBERASURECODE_RS_VAND, MO.thorough);
         nc += cfgs_xor(cfgs + nc, 1200 - nc);
+        nc += cfgs_shss(cfgs + nc, 1200 - nc);
     }
     if (which & 2) {
         add_cfgs(cfgs, &nc, 1200, EC_BACKEND_ISA_L_RS_VAND, MO.thorough);
@@ -442,6 +444,7 @@ static void run_reconstruct(int which)
     if (which & 1) {
         add_cfgs(cfgs, &nc, 1200, EC_BACKEND_LIBERASURECODE_RS_VAND, MO.thorough);
         nc += cfgs_xor(cfgs + nc, 1200 - nc);
+        nc += cfgs_shss(cfgs + nc, 1200 - nc);
     }
     if (which & 2) {
         add_cfgs(cfgs, &nc, 1200, EC_BACKEND_ISA_L_RS_VAND, MO.thorough && which == 2);
@@ -740,6 +743,7 @@ static void run_needed(int which)
     if (which & 1) {
         add_cfgs(cfgs, &nc, 1200, EC_BACKEND_LIBERASURECODE_RS_VAND, MO.thorough);
         nc += cfgs_xor(cfgs + nc, 1200 - nc);
+        nc += cfgs_shss(cfgs + nc, 1200 - nc);
     }
     if (which & 2) {
         add_cfgs(cfgs, &nc, 1200, EC_BACKEND_ISA_L_RS_VAND, MO.thorough && which == 2);
@@ -821,6 +825,7 @@ static void run_force(int which)
     if (which & 1) {
         add_cfgs(cfgs, &nc, 1200, EC_BACKEND_LIBERASURECODE_RS_VAND, 0);
         nc += cfgs_xor(cfgs + nc, 1200 - nc);
+        nc += cfgs_shss(cfgs + nc, 1200 - nc);
     }
     if (which & 2) {
         add_cfgs(cfgs, &nc, 1200, EC_BACKEND_ISA_L_RS_VAND, 0);
